@@ -89,7 +89,8 @@ def local_defs(func, inl=None):
     for x in walk(body):
         if x.get('kind') == 'VarDecl' and x.get('name') and kids(x) and not written.get(x['id']) and names.get(x['name']) == 1:
             t = dtype(x) or ''
-            if (int_type_info(t) is None and not ((qtype(x) or '').rstrip().endswith('*const') or (qtype(x) or '').rstrip().endswith('* const'))) or (x.get('storageClass') == 'static' and not (qtype(x) or '').startswith('const')):
+            qt_ = (qtype(x) or '').rstrip()
+            if (int_type_info(t) is None and not (qt_.endswith('*const') or qt_.endswith('* const') or qt_.endswith('*'))) or (x.get('storageClass') == 'static' and not (qtype(x) or '').startswith('const')):
                 continue
             if enclosing(x, ('ForStmt', 'WhileStmt', 'DoStmt', 'CXXForRangeStmt')) is not None and False:
                 continue
